@@ -31,7 +31,7 @@ def run(tier):
     js = [("rt-int:%s" % s, F.job_rt_int, {"sign": s}) for s in ("pos", "neg", "min")]
     js += [("rt-offset:spec=%s" % spec, F.job_rt_offset, {"fmode": fm, "pmode": pm}) for spec, fm, pm in (("%z", "", ""), ("%Ez", ":", ":"), ("%E*z", ":*", ":"))]
     js += [("rt-subsec", F.job_rt_subsec, {})]
-    js += [("driver-parse:%s" % s, D.job_parse, {"shape": s}) for s in ("ymdhms", "hms-z", "s-pos", "s-neg", "ES", "max-z", "max-local", "min-z", "min-local")]
+    js += [("driver-parse:%s" % s, D.job_parse, {"shape": s}) for s in ("ymdhms", "hms-z", "s-pos", "s-neg", "ES", "max-z", "max-local", "min-z", "min-local", "ws-run", "ws-e")]
     js += [("driver-format:%r" % p, D.job_format, {"fmt": p, "year_digits": 4}) for p in ("%Y-%m-%d %H:%M:%S", "%H:%M:%S %z", "%H:%M:%E*S")]
     results = common.run_jobs(js)
     rep.add_jobs(results)
